@@ -17,7 +17,7 @@ func init() { checks["C07"] = c07 }
 func c07(args []string) {
 	c := chk.New("C07", "exploration", args)
 	c.Build(false)
-	c.Rule("(a) mixed-cores contention workloads (max in {2,3,4,6}, multisets of task classes with cores in 1..max) with yields of up to 3 ms at slots.before_lock / slots.deposit / slots.release so that token-by-token acquisitions of different tasks interleave whenever the lock does not prevent it: must terminate (structural hang classifier, never elapsed time); (a2) the same with outputs of waiting tasks appearing on disk while they wait (written by sibling tasks): must terminate with every slot given back (shadow counter 0) and every task either run or skipped; (b) rendezvous groups: k tasks with k*cores <= max and nothing else ready must all be inside their command at the same time (each announces itself and waits for k announcements; completion is the witness; on expiry the hook event log decides: a waiter blocked in the slot acquisition although free >= needed is a violation, anything else inconclusive); (b3) two workflows in one program: a task of X waiting for X's only slot must not keep Y's tasks from Y's free slots (one rendezvous group across both); (c) CoresPerTask > max must be refused by the library (exit != 0 with its own message, no command of that process), a Go-runtime deadlock report is not a refusal. distinct_nontrivial = distinct (max, cores multiset, interleaving signature) of contention runs in which >= 2 tasks overlapped their acquisitions' waiting, plus completed rendezvous groups and refusals")
+	c.Rule("(a) mixed-cores contention workloads (max in {2,3,4,6}, multisets of task classes with cores in 1..max) with yields of up to 3 ms at slots.before_lock / slots.deposit / slots.release so that token-by-token acquisitions of different tasks interleave whenever the lock does not prevent it: must terminate (structural hang classifier, never elapsed time); (a1) one task waiting more than 10 s for the only slot; (a2) the same with outputs of waiting tasks appearing on disk while they wait (written by sibling tasks): must terminate with every slot given back (shadow counter 0) and every task either run or skipped; (b) rendezvous groups: k tasks with k*cores <= max and nothing else ready must all be inside their command at the same time (each announces itself and waits for k announcements; completion is the witness; on expiry the hook event log decides: a waiter blocked in the slot acquisition although free >= needed is a violation, anything else inconclusive); (b3) two workflows in one program: a task of X waiting for X's only slot must not keep Y's tasks from Y's free slots (one rendezvous group across both); (c) CoresPerTask > max must be refused by the library (exit != 0 with its own message, no command of that process), a Go-runtime deadlock report is not a refusal. distinct_nontrivial = distinct (max, cores multiset, interleaving signature) of contention runs in which >= 2 tasks overlapped their acquisitions' waiting, plus completed rendezvous groups and refusals")
 	c.Assume("head-of-line blocking behind a waiting multi-core task is legal: rendezvous groups are homogeneous and run with nothing else ready", "yields only make legal interleavings frequent (Go is preemptive)")
 	rng := c.Rand("c07")
 	type job struct {
@@ -94,6 +94,12 @@ func c07(args []string) {
 			jobs = append(jobs, &job{s: s, bh: bh, cfg: Cfg{Buf: 128, Procs: []int{1, 2, 8}[r%3]}, kind: "rendezvous", k: k, cores: 1})
 		}
 	}
+	// (a1) a task that waits more than 10 s for its slot (long-running neighbours): it must still get it, and the
+	// workflow must end
+	{
+		s, bh := gen.Contention(rng, "longwait", gen.ContentionOpts{Max: 1, Procs: 2, TasksPer: 1, SleepLo: 10600, SleepHi: 10600, CoresFn: func(int) int { return 1 }})
+		jobs = append(jobs, &job{s: s, bh: bh, cfg: Cfg{Buf: 128, Procs: 4, SoftSec: 40}, kind: "mixed"})
+	}
 	// (a2) outputs of waiting tasks appear on disk while they wait for their slots (here: written as an
 	// additional file by a sibling task, the way a second instance of the workflow or the user would)
 	for _, max := range []int{1, 2, 3} {
@@ -149,6 +155,10 @@ func c07(args []string) {
 					}
 					return 1
 				}})
+			if extra == 3 {
+				// the documented way to wrap commands (srun, salloc, nice) does not change what a slot is
+				s.Proc("w1").Prepend = "env VERIF_WRAPPED=1"
+			}
 			jobs = append(jobs, &job{s: s, bh: bh, cfg: Cfg{Buf: 128, Procs: 4}, kind: "oversize"})
 			// the oversize process as the last step without out-ports (it becomes the driver)
 			s2 := s.Clone()
